@@ -58,6 +58,14 @@
 (* Tw*, HSend).  Bridge.Close's connection section (XCall / XCloseConn under the connection locks, ConnOnce) and a      *)
 (* target connection arriving meanwhile (TgSet).  Hypothetical designs "snapclose" and "unbuf" as for the others.        *)
 (*                                                                                                *)
+(* Round 3: registration histories of the resource manager (RUnreg / RReg, design "lazyorder"); the mapping statistics  *)
+(* kept by cloud control as a read-modify-write of every reporter (stored, StoredExact, design "claim": mutex held for   *)
+(* the claim only, deviations dev_lost and - when a cloud-control call fails (paths "gfail" / "ufail": RGetFail,        *)
+(* RUpdFail) and the claim is handed back (RUnclaim) - dev_unclaim); the close notification of the client tunnel stuck   *)
+(* on a busy control connection (path "slownotify": NTimeout / NRelease, design "notifyto") and, the same idiom at its   *)
+(* other call site, the periodic reporter giving up on a final report that cloud control keeps waiting (path            *)
+(* "slowcloud": PerTimeout / FDone, design "finto").                                                                     *)
+(*                                                                                                *)
 (* Properties: AtMostOnce, ExactlyOnce, NoOverReport, TrafficExact, ClosedError, NoPanic,         *)
 (* LeakFree (bottom of the module); the cfg checks Inv* = property or, in a configuration of the  *)
 (* code as written, a listed deviation.  Goroutine births/deaths are tracked in liveG.            *)
@@ -83,22 +91,32 @@ AllPaths == {"copy", "idle", "peer", "ctx"}
 Cfgs ==
   CASE Suite = "mc" ->            \* exhaustive, quick tier: 2-3 closers x every completion path
          { C("latch", {"c1", "c2", "c3"}, {"add", "op", "io"}, "-", 0, 0, "fixed"),
-           C("tunnel", X2, AllPaths, "Connected", 0, 0, "fixed"),
+           C("tunnel", X2, {"copy", "idle", "peer"}, "Connected", 0, 0, "fixed"),
+           C("tunnel", {"x1"}, AllPaths, "Connected", 0, 0, "fixed"),           \* (every completion path against two closers: mcbig)
            C("tunnel", X3, {}, "Connected", 0, 0, "fixed"),
            C("tunnel", X3, {}, "Connecting", 0, 0, "fixed"),
            C("tunnel", X3, {}, "Connected", 0, 0, "asis"),
            C("tunnel", X2, {"copy", "peer"}, "Connected", 0, 0, "asis"),
            C("tunnel", X2, {}, "Connecting", 0, 0, "asis"),
-           C("bridge", X2, {"eofA", "eofB", "ctx"}, "-", 1, 1, "fixed"),
-           C("bridge", {"x1"}, {"eofA", "ctx"}, "-", 1, 1, "asis"),
-           C("bridge", {"x1"}, {"ctx", "flow", "big"}, "-", 2, 1, "fixed"),      \* parent context cancelled while data flows; > 1 MiB
+           C("bridge", X2, {"eofA", "eofB", "ctx"}, "-", 1, 0, "fixed"),
+           C("bridge", {"x1"}, {"eofA", "ctx"}, "-", 1, 0, "asis"),
+           C("bridge", {"x1"}, {"ctx", "flow", "big"}, "-", 2, 0, "fixed"),      \* parent context cancelled while data flows; > 1 MiB
            C("tunnel", X2, {"peer", "ctx"}, "Starting", 0, 0, "fixed"),          \* Start racing with every kind of Close
            C("tunnel", X2, {"peer"}, "Starting", 0, 0, "casfirst"),              \* hypothetical: CAS before SetCtx
            C("latch", {"c1", "c2", "c3"}, {"add"}, "-", 0, 0, "splitlatch"),     \* hypothetical: latch tested outside the lock
            C("bridge", X2, {"tg", "eofA"}, "-", 1, 0, "fixed"),                  \* target connection arriving while the bridge closes
            C("bridge", X2, {"tg"}, "-", 0, 0, "snapclose"),                      \* hypothetical: connections closed outside the locks
            C("resmgr", {"d1", "d2"}, {"tw"}, "-", 0, 0, "fixed"),                \* DisposeAll x2 and DisposeWithTimeout
-           C("resmgr", {"d1"}, {"tw"}, "-", 0, 0, "unbuf") }                     \* hypothetical: unbuffered result channel
+           C("resmgr", {"d1"}, {"tw"}, "-", 0, 0, "unbuf"),                      \* hypothetical: unbuffered result channel
+           C("resmgr", {"d1", "d2"}, {"tw", "reg"}, "-", 0, 0, "fixed"),         \* ... with an unregister / re-register history
+           C("resmgr", {"d1"}, {"reg"}, "-", 0, 0, "lazyorder"),                 \* hypothetical: Unregister leaves the name in the order list
+           C("bridge", {"x1"}, {"ctx", "big"}, "-", 2, 0, "claim"),              \* hypothetical: report mutex held for the claim only
+           C("tunnel", X2, {"slownotify", "peer"}, "Connected", 0, 0, "fixed"),  \* close notification stuck on the control connection
+           C("tunnel", {"x1"}, {"slownotify"}, "Connected", 0, 0, "notifyto"),   \* hypothetical: timeout idiom, unbuffered result
+           C("bridge", {"x1"}, {"ctx", "big", "gfail", "ufail"}, "-", 1, 0, "fixed"),   \* one cloud-control call fails: a later reporter makes up for it
+           C("bridge", {"x1"}, {"ctx", "big", "gfail"}, "-", 1, 0, "claim"),     \* hypothetical: ... the claim is handed back too late
+           C("bridge", {"x1"}, {"ctx", "slowcloud"}, "-", 1, 0, "fixed"),        \* final report kept waiting by cloud control for longer than the reporter waits
+           C("bridge", {"x1"}, {"ctx", "slowcloud"}, "-", 1, 0, "finto") }       \* hypothetical: its result handed over an unbuffered channel
     [] Suite = "mcbig" ->         \* exhaustive, thorough tier
          { C("tunnel", X3, AllPaths, "Connected", 0, 0, "fixed"),
            C("tunnel", X2, AllPaths, "Connected", 0, 0, "asis"),
@@ -110,7 +128,11 @@ Cfgs ==
            C("resmgr", {"d1", "d2", "d3"}, {"tw"}, "-", 0, 0, "fixed"),
            C("bridge", X3, {"eofA", "eofB", "ctx"}, "-", 1, 1, "fixed"),
            C("bridge", X2, {"eofA", "eofB", "ctx"}, "-", 1, 1, "asis"),
-           C("bridge", X2, {"eofA", "eofB", "ctx"}, "-", 1, 1, "report") }
+           C("bridge", X2, {"eofA", "eofB", "ctx"}, "-", 1, 1, "report"),
+           C("bridge", X2, {"ctx", "big", "eofA", "gfail", "ufail"}, "-", 2, 1, "fixed"),
+           C("bridge", {"x1"}, {"ctx", "big", "gfail", "ufail"}, "-", 2, 1, "claim"),
+           C("bridge", X2, {"ctx", "eofA", "slowcloud"}, "-", 1, 1, "fixed"),
+           C("bridge", X2, {"ctx", "slowcloud"}, "-", 1, 0, "finto") }
     [] Suite = "gen" ->           \* behaviour generation, quick tier
          { C("latch", {"c1", "c2"}, {"add", "op", "io"}, "-", 0, 0, "fixed"),
            C("latch", {"c1", "c2", "c3"}, {"add"}, "-", 0, 0, "fixed"),
@@ -123,9 +145,12 @@ Cfgs ==
            C("bridge", {"x1"}, {"ctx", "flow", "big"}, "-", 2, 0, "fixed"),
            C("tunnel", {"x1"}, {"peer"}, "Starting", 0, 0, "fixed"),       \* (no manager shutdown: it would cancel whatever Start left behind)
            C("bridge", X2, {"tg"}, "-", 0, 0, "fixed"),
-           C("resmgr", {"d1", "d2"}, {"tw"}, "-", 0, 0, "fixed") }
+           C("resmgr", {"d1", "d2"}, {"tw", "reg"}, "-", 0, 0, "fixed"),
+           C("bridge", {"x1"}, {"ctx", "big"}, "-", 2, 0, "claim"),              \* (unrealisable where the real reporters wait for each other)
+           C("bridge", {"x1"}, {"ctx", "big", "gfail", "ufail"}, "-", 1, 0, "fixed") }
     [] Suite = "genbig" ->        \* behaviour generation, thorough tier (in addition to "gen")
-         { C("latch", {"c1", "c2", "c3"}, {"add", "op", "io"}, "-", 0, 0, "fixed"),
+         { C("tunnel", {"x1"}, {"slownotify", "peer"}, "Connected", 0, 0, "fixed"),
+           C("latch", {"c1", "c2", "c3"}, {"add", "op", "io"}, "-", 0, 0, "fixed"),
            C("tunnel", X2, {"peer", "idle"}, "Starting", 0, 0, "fixed"),
            C("tunnel", X2, {"idle", "ctx"}, "Connected", 0, 0, "fixed"),
            C("tunnel", X3, {}, "Connected", 0, 0, "asis"),
@@ -139,7 +164,23 @@ Cfgs ==
          { C("latch", {"c1", "c2"}, {}, "-", 0, 0, "splitlatch"),
            C("tunnel", {"x1"}, {}, "Starting", 0, 0, "casfirst"),
            C("bridge", X2, {"tg"}, "-", 0, 0, "snapclose"),
-           C("resmgr", {"d1"}, {"tw"}, "-", 0, 0, "unbuf") }
+           C("resmgr", {"d1"}, {"tw"}, "-", 0, 0, "unbuf"),
+           C("resmgr", {"d1"}, {"reg"}, "-", 0, 0, "lazyorder"),
+           C("bridge", {"x1"}, {"ctx", "big"}, "-", 2, 0, "claim"),
+           C("tunnel", {"x1"}, {"slownotify"}, "Connected", 0, 0, "notifyto"),
+           C("bridge", {"x1"}, {"ctx", "big", "gfail"}, "-", 2, 0, "claim"),
+           C("bridge", {"x1"}, {"ctx", "slowcloud"}, "-", 1, 0, "finto") }
+    [] OTHER ->                   \* "show_<design>": one hypothetical design alone against the strict property (Dispose_show_<design>.cfg)
+         { c \in { C("latch", {"c1", "c2"}, {}, "-", 0, 0, "splitlatch"),
+                   C("tunnel", {"x1"}, {}, "Starting", 0, 0, "casfirst"),
+                   C("bridge", X2, {"tg"}, "-", 0, 0, "snapclose"),
+                   C("resmgr", {"d1"}, {"tw"}, "-", 0, 0, "unbuf"),
+                   C("resmgr", {"d1"}, {"reg"}, "-", 0, 0, "lazyorder"),
+                   C("bridge", {"x1"}, {"ctx", "big"}, "-", 2, 0, "claim"),
+                   C("bridge", {"x1"}, {"ctx", "big", "gfail"}, "-", 2, 0, "claim"),
+                   C("tunnel", {"x1"}, {"slownotify"}, "Connected", 0, 0, "notifyto"),
+                   C("bridge", {"x1"}, {"ctx", "slowcloud"}, "-", 1, 0, "finto") } :
+             Suite = "show_" \o c.design \o (IF "gfail" \in c.paths THEN "_fault" ELSE "") }
 
 VARIABLES cf,                                                   \* the configuration of this behaviour (never changes)
           pc, liveG, ctxDone, retd, called,
@@ -152,6 +193,11 @@ VARIABLES cf,                                                   \* the configura
           ctxSet, dev_split, dev_ctxlate,                     \* context installed (tunnel Start); hypothetical deviations (see designs)
           clock, fields, owned, mustc, cclosed, csnap, ready, dev_snap,   \* bridge: the connections it was handed and their Close
           disposing, regs, todo, dev_stuck,                   \* scene "resmgr"
+          order, objof, mustres, dev_lazy,                    \* resmgr: registration history (order list, object behind each name)
+          dev_lost,                                           \* bridge: an update of the mapping statistics overwrote another one
+          npc, ntimed, dev_nstuck,                            \* tunnel: the close notification in flight on the control connection
+          faulted, dev_unclaim,                               \* bridge: a cloud-control call failed; a claimed delta was handed back
+          pertimed, dev_fstuck,                               \* bridge: the periodic reporter gave up waiting for its final report
           hist
 
 common == <<pc, liveG, ctxDone, retd, called, closed, lock, ran>>
@@ -162,8 +208,10 @@ xvars  == <<torn, panicked, dev_tornio, dev_nilfwd>>
 yvars  == <<ctxSet, dev_split, dev_ctxlate>>
 cvars  == <<clock, fields, owned, mustc, cclosed, csnap, ready, dev_snap>>
 rvars  == <<disposing, regs, todo, dev_stuck>>
-vars   == <<cf, common, lvars, tvars, bvars, xvars, yvars, cvars, rvars, hist>>
-view   == <<cf, common, lvars, tvars, bvars, xvars, yvars, cvars, rvars>>
+wvars  == <<order, objof, mustres, dev_lazy, dev_lost, npc, ntimed, dev_nstuck>>
+zvars  == <<faulted, dev_unclaim, pertimed, dev_fstuck>>
+vars   == <<cf, common, lvars, tvars, bvars, xvars, yvars, cvars, rvars, wvars, zvars, hist>>
+view   == <<cf, common, lvars, tvars, bvars, xvars, yvars, cvars, rvars, wvars, zvars>>
 
 Scene      == cf.scene
 Closers    == cf.closers
@@ -179,6 +227,10 @@ SplitLatch == cf.design = "splitlatch" \* Dispose.Close tests `closed` BEFORE ta
 CasFirst   == cf.design = "casfirst"   \* Tunnel.Start does CAS(Connecting -> Connected) BEFORE SetCtx(manager context)
 SnapClose  == cf.design = "snapclose"  \* Bridge.Close snapshots its connections under RLock, closes them outside the locks, clears the fields last
 Unbuf      == cf.design = "unbuf"      \* ResourceManager.DisposeWithTimeout hands the result over an UNBUFFERED channel
+LazyOrder  == cf.design = "lazyorder"  \* ResourceManager.Unregister leaves the name in the order list (DisposeAll skips names no longer registered)
+ClaimOnly  == cf.design = "claim"      \* reportTrafficStats holds its mutex only while claiming the delta; Get/Update run outside it (a failed call hands the claim back)
+FinTO      == cf.design = "finto"      \* the periodic reporter's final report signals its end with a send on an unbuffered channel (as coded: close)
+NotifyTO   == cf.design = "notifyto"   \* the close notification is sent under a timeout idiom whose result channel is unbuffered
 
 Copiers == {"cpA", "cpB"}
 Procs == CASE Scene = "latch"  -> Closers \cup (Paths \cap {"add", "op", "io"})
@@ -186,9 +238,13 @@ Procs == CASE Scene = "latch"  -> Closers \cup (Paths \cap {"add", "op", "io"})
                                           \cup (IF StartState \in {"Connected", "Starting"} THEN {"copy"} ELSE {})
                                           \cup (IF StartState = "Starting" THEN {"start"} ELSE {})
            [] Scene = "bridge" -> Closers \cup {"st", "fin"} \cup Copiers \cup (Paths \cap {"tg"})
-           [] Scene = "resmgr" -> Closers \cup (IF "tw" \in Paths THEN {"tw", "hlp"} ELSE {})
+           [] Scene = "resmgr" -> Closers \cup (IF "tw" \in Paths THEN {"tw", "hlp"} ELSE {}) \cup (Paths \cap {"reg"})
 
-HandlerIds == {"h1", "h2", "h3", "onClose", "cleanup", "r1", "r2"}
+HandlerIds == {"h1", "h2", "h3", "onClose", "cleanup", "r1", "r2", "r1b"}
+Rev(sq) == [i \in 1..Len(sq) |-> sq[Len(sq) + 1 - i]]
+RemoveFirst(sq, x) == IF \A i \in 1..Len(sq) : sq[i] # x THEN sq
+                      ELSE LET i == CHOOSE i \in 1..Len(sq) : sq[i] = x /\ \A j \in 1..(i - 1) : sq[j] # x
+                           IN SubSeq(sq, 1, i - 1) \o SubSeq(sq, i + 1, Len(sq))
 Conns == {"s", "t", "t2"}        \* source connection, target connection, a target connection arriving later (SetTargetConnection)
 
 Out(h) == IF Emit THEN PrintT("BEH " \o ToJson([scene |-> cf.scene, start |-> cf.start, design |-> cf.design, steps |-> h])) ELSE TRUE
@@ -200,8 +256,10 @@ Waits(p) == /\ p \in Procs
                \/ pc'[p] = "opchk" /\ lock' # "none"
                \/ pc'[p] = "xcall" /\ ~SnapClose /\ clock' # "none"
 Returns(p) == p \in Procs /\ pc[p] \notin {"ret", "gone"} /\ pc'[p] \in {"ret", "gone"}     \* p's call returns / p ends in this step
-LogZ(p, a, silent) == /\ hist' = Append(hist, [p |-> p, a |-> a, s |-> silent, w |-> Waits(p), r |-> Returns(p)])
+LogV(p, a, silent) == /\ hist' = Append(hist, [p |-> p, a |-> a, s |-> silent, w |-> Waits(p), r |-> Returns(p)])
                       /\ Out(hist') /\ UNCHANGED cf
+LogW(p, a, silent) == UNCHANGED zvars /\ LogV(p, a, silent)
+LogZ(p, a, silent) == UNCHANGED wvars /\ LogW(p, a, silent)
 LogY(p, a, silent) == UNCHANGED <<cvars, rvars>> /\ LogZ(p, a, silent)
 LogX(p, a, silent) == UNCHANGED yvars /\ LogY(p, a, silent)
 Log(p, a, silent) == UNCHANGED xvars /\ LogX(p, a, silent)
@@ -228,6 +286,9 @@ Init ==
   /\ clock = "none" /\ fields = (IF "tg" \in Paths THEN {"s"} ELSE {"s", "t"}) /\ owned = fields /\ mustc = {}
   /\ cclosed = [c \in Conns |-> 0] /\ csnap = [p \in Procs |-> <<>>] /\ ready = ("tg" \notin Paths) /\ dev_snap = FALSE
   /\ disposing = FALSE /\ regs = (IF Scene = "resmgr" THEN {"r1", "r2"} ELSE {}) /\ todo = [p \in Procs |-> <<>>] /\ dev_stuck = FALSE
+  /\ order = (IF Scene = "resmgr" THEN <<"r1", "r2">> ELSE <<>>) /\ objof = [n \in {"r1", "r2"} |-> n] /\ mustres = {} /\ dev_lazy = FALSE
+  /\ dev_lost = FALSE /\ npc = "none" /\ ntimed = FALSE /\ dev_nstuck = FALSE
+  /\ faulted = FALSE /\ dev_unclaim = FALSE /\ pertimed = FALSE /\ dev_fstuck = FALSE
   /\ hist = <<>>
 
 Ret(p) == retd' = retd \cup {p}
@@ -309,7 +370,8 @@ LOpCheck ==   \* IsClosed() takes currentLock: it waits for a Close in progress
 \* The component's own I/O in flight (StreamProcessor.ReadPacket: acquireReadLock checks IsClosed and reader # nil
 \* once, then every read step uses the reader FIELD again).  Close does not take the read lock: its onClose
 \* sets the fields to nil under the reader's feet - the next read step dereferences nil (deviation dev_tornio;
-\* not repaired: listed as a known finding).
+\* listed as a known finding; a repair is under way - both outcomes of that step are in the model, so that it describes the
+\* tree before and after the repair).
 IoCall ==     \* ReadPacket: read lock, IsClosed (waits for a Close in progress), first Read returns the type byte
   /\ Scene = "latch" /\ "io" \in Procs /\ pc["io"] = "idle" /\ lock = "none"
   /\ pc' = [pc EXCEPT !["io"] = IF closed THEN "ret" ELSE "io1"]
@@ -319,7 +381,8 @@ IoCall ==     \* ReadPacket: read lock, IsClosed (waits for a Close in progress)
 IoNext ==     \* next read step of the same packet (readPacketBodySize): uses ps.reader
   /\ Scene = "latch" /\ "io" \in Procs /\ pc["io"] = "io1"
   /\ IF torn
-     THEN /\ pc' = [pc EXCEPT !["io"] = "ret"] /\ panicked' = panicked \cup {"io"} /\ dev_tornio' = TRUE
+     THEN \/ /\ pc' = [pc EXCEPT !["io"] = "ret"] /\ panicked' = panicked \cup {"io"} /\ dev_tornio' = TRUE   \* as written: nil dereference
+          \/ /\ pc' = [pc EXCEPT !["io"] = "ret"] /\ UNCHANGED <<panicked, dev_tornio>>     \* read paths working on a snapshot of the fields: closed-stream error
      ELSE /\ pc' = [pc EXCEPT !["io"] = "io2"] /\ UNCHANGED <<panicked, dev_tornio>>
   /\ UNCHANGED <<liveG, ctxDone, retd, called, closed, lock, ran, lvars, tvars, bvars, torn, dev_nilfwd>>
   /\ LogX("io", "IoNext", FALSE)
@@ -362,12 +425,35 @@ TCas(p) ==    \* CAS(Connected -> Closing), else Store(Closing); Dispose.Close; 
              /\ tconns' = "closed"
              /\ notif' = IF Notifies(p) THEN notif + 1 ELSE notif
              /\ pc' = [pc EXCEPT ![p] = "unreg"]
-             /\ UNCHANGED <<retd, liveG>>
+             /\ retd' = retd
+             /\ IF Notifies(p) /\ "slownotify" \in Paths /\ npc = "none"      \* go client.SendTunnelCloseNotify(..): stays blocked on a busy control connection
+                THEN npc' = "sending" /\ liveG' = liveG \cup {"n"}
+                ELSE npc' = npc /\ liveG' = liveG
         ELSE /\ pc' = [pc EXCEPT ![p] = "ret"] /\ Ret(p)     \* repaired: somebody else owns the close
              /\ liveG' = IF p = "copy" THEN liveG \ {"copy"} ELSE liveG
-             /\ UNCHANGED <<tstate, fell, closed, ctxDone, ran, tconns, notif>>
+             /\ UNCHANGED <<tstate, fell, closed, ctxDone, ran, tconns, notif, npc>>
   /\ UNCHANGED <<called, lock, lvars, cb, unreg, ioEnded, bvars>>
-  /\ Log(p, "Cas", FALSE)
+  /\ UNCHANGED <<xvars, yvars, cvars, rvars, order, objof, mustres, dev_lazy, dev_lost, ntimed, dev_nstuck>>
+  /\ LogW(p, "Cas", FALSE)
+
+\* The close notification in flight (path "slownotify": the control connection is busy or reconnecting, the send returns
+\* only when the environment lets it).  As coded one goroutine makes the call and ends when it returns.  Design
+\* "notifyto" (hypothetical): the call is made by an inner goroutine that hands its result over an unbuffered channel to
+\* an outer one waiting with a timeout - when the timeout has passed nobody receives and the inner goroutine stays
+\* blocked on its send for ever (deviation dev_nstuck).
+NTimeout ==   \* more time passes than any send timeout
+  /\ Scene = "tunnel" /\ npc = "sending" /\ ~ntimed
+  /\ ntimed' = TRUE
+  /\ UNCHANGED <<common, lvars, tvars, bvars, xvars, yvars, cvars, rvars, order, objof, mustres, dev_lazy, dev_lost, npc, dev_nstuck>>
+  /\ LogW("env", "NotifyTimeout", FALSE)
+
+NRelease ==   \* the control connection is usable again: SendTunnelCloseNotify returns
+  /\ Scene = "tunnel" /\ npc = "sending"
+  /\ IF NotifyTO /\ ntimed
+     THEN npc' = "stuck" /\ dev_nstuck' = TRUE /\ liveG' = liveG
+     ELSE npc' = "gone" /\ dev_nstuck' = dev_nstuck /\ liveG' = liveG \ {"n"}
+  /\ UNCHANGED <<pc, ctxDone, retd, called, closed, lock, ran, lvars, tvars, bvars, xvars, yvars, cvars, rvars, order, objof, mustres, dev_lazy, dev_lost, ntimed>>
+  /\ LogW("env", "NotifyRelease", FALSE)
 
 TUnreg(p) ==  \* manager.UnregisterTunnel(id)
   /\ Scene = "tunnel" /\ pc[p] = "unreg"
@@ -438,7 +524,9 @@ AfterClose(p) ==
 \* what p goes on to do when its reportTrafficStats() has returned; leaves once, liveG, retd, pc, lock determined
 AfterReport(p) ==
   CASE rctx[p] = "cleanup" -> /\ lock' = "none" /\ AfterClose(p)          \* handlers done: unlock, Close returns
-    [] rctx[p] = "fin"     -> /\ pc' = [pc EXCEPT ![p] = "gone"] /\ liveG' = liveG \ {"fin"}
+    [] rctx[p] = "fin"     -> /\ IF "slowcloud" \in Paths
+                                 THEN pc' = [pc EXCEPT ![p] = "fsend"] /\ liveG' = liveG      \* signals its end to the periodic goroutine: FDone
+                                 ELSE pc' = [pc EXCEPT ![p] = "gone"] /\ liveG' = liveG \ {"fin"}   \* (one step where nobody gives up waiting)
                               /\ UNCHANGED <<lock, once, retd>>
     [] rctx[p] = "final"   -> /\ pc' = [pc EXCEPT ![p] = "life"]            \* Start returns
                               /\ UNCHANGED <<lock, once, retd, liveG>>
@@ -500,16 +588,17 @@ InFlight(q) == pc[q] \in {"get", "upd", "sto"}
 
 RBegin(p) ==  \* reportTrafficStats: load counters and last-reported values; nothing to report => return
   /\ Scene = "bridge" /\ pc[p] = "rbegin"
-  /\ FixReport => rmu = "none"
+  /\ (FixReport /\ ~ClaimOnly) => rmu = "none"
   /\ LET d == ctr - last IN
      IF d = 0
-     THEN /\ AfterReport(p) /\ UNCHANGED <<rloc, rmu, dev_overlap>>
+     THEN /\ AfterReport(p) /\ UNCHANGED <<rloc, rmu, dev_overlap, last>>
      ELSE /\ rloc' = [rloc EXCEPT ![p] = [cur |-> ctr, delta |-> d, m |-> 0]]
-          /\ rmu' = IF FixReport THEN p ELSE rmu
+          /\ rmu' = IF FixReport /\ ~ClaimOnly THEN p ELSE rmu
+          /\ last' = IF ClaimOnly THEN ctr ELSE last        \* design "claim": the delta is claimed here, under a lock released at once
           /\ dev_overlap' = (dev_overlap \/ \E q \in Procs \ {p} : InFlight(q))   \* deviation: two reports in flight
           /\ pc' = [pc EXCEPT ![p] = "get"]
           /\ UNCHANGED <<lock, once, liveG, retd>>
-  /\ UNCHANGED <<ctxDone, called, closed, ran, lvars, tvars, bconns, batch, sent, ctr, last, moved, stored, reported, rctx, dev_lateflush>>
+  /\ UNCHANGED <<ctxDone, called, closed, ran, lvars, tvars, bconns, batch, sent, ctr, moved, stored, reported, rctx, dev_lateflush>>
   /\ Log(p, "RBegin", TRUE)
 
 RGet(p) ==    \* CloudControl.GetPortMapping
@@ -522,15 +611,42 @@ RUpd(p) ==    \* CloudControl.UpdatePortMappingStats(mapping stats + delta)
   /\ Scene = "bridge" /\ pc[p] = "upd"
   /\ stored' = rloc[p].m + rloc[p].delta /\ reported' = reported + rloc[p].delta
   /\ pc' = [pc EXCEPT ![p] = "sto"]
+  /\ dev_lost' = (dev_lost \/ stored # rloc[p].m)       \* deviation: the statistics changed since this reporter read them - that update is overwritten
   /\ UNCHANGED <<liveG, ctxDone, retd, called, closed, lock, ran, lvars, tvars, bconns, once, batch, sent, ctr, last, moved, rloc, rctx, rmu, dev_overlap, dev_lateflush>>
-  /\ Log(p, "RUpd", FALSE)
+  /\ UNCHANGED <<xvars, yvars, cvars, rvars, order, objof, mustres, dev_lazy, npc, ntimed, dev_nstuck>>
+  /\ LogW(p, "RUpd", FALSE)
 
 RSto(p) ==    \* lastReported.Store(current); return
   /\ Scene = "bridge" /\ pc[p] = "sto"
-  /\ last' = rloc[p].cur /\ rmu' = IF rmu = p THEN "none" ELSE rmu
+  /\ last' = (IF ClaimOnly THEN last ELSE rloc[p].cur) /\ rmu' = IF rmu = p THEN "none" ELSE rmu
   /\ AfterReport(p)
   /\ UNCHANGED <<ctxDone, called, closed, ran, lvars, tvars, bconns, batch, sent, ctr, moved, stored, reported, rloc, rctx, dev_overlap, dev_lateflush>>
   /\ Log(p, "RSto", FALSE)
+
+\* A cloud-control call fails (paths "gfail" / "ufail": storage behind cloud control unreachable for a moment; at most one
+\* failure per behaviour, and not on Start's final report, after which nobody would try again).  As coded the reporter
+\* logs the error and returns, still holding the mutex until then; the last-reported values are not advanced, so the next
+\* reporter reports the same bytes.  Design "claim": the delta was claimed at RBegin and has to be handed back (RUnclaim);
+\* a reporter that began in between found nothing to report and is gone (deviation dev_unclaim).
+RFail(p, at, path) ==
+  /\ Scene = "bridge" /\ pc[p] = at /\ path \in Paths /\ ~faulted /\ rctx[p] # "final" /\ FixFlush
+  /\ faulted' = TRUE
+  /\ IF ClaimOnly
+     THEN /\ pc' = [pc EXCEPT ![p] = "unclaim"] /\ UNCHANGED <<lock, once, liveG, retd, rmu>>
+     ELSE /\ rmu' = (IF rmu = p THEN "none" ELSE rmu) /\ AfterReport(p)
+  /\ UNCHANGED <<ctxDone, called, closed, ran, lvars, tvars, bconns, batch, sent, ctr, last, moved, stored, reported, rloc, rctx, dev_overlap, dev_lateflush>>
+  /\ UNCHANGED <<xvars, yvars, cvars, rvars, wvars, dev_unclaim, pertimed, dev_fstuck>>
+  /\ LogV(p, IF at = "get" THEN "RGetFail" ELSE "RUpdFail", FALSE)
+RGetFail(p) == RFail(p, "get", "gfail")
+RUpdFail(p) == RFail(p, "upd", "ufail")
+
+RUnclaim(p) ==   \* design "claim" only: lastReported -= delta, under the mutex; return
+  /\ Scene = "bridge" /\ pc[p] = "unclaim"
+  /\ last' = last - rloc[p].delta /\ dev_unclaim' = TRUE
+  /\ AfterReport(p)
+  /\ UNCHANGED <<ctxDone, called, closed, ran, lvars, tvars, bconns, batch, sent, ctr, moved, stored, reported, rloc, rctx, rmu, dev_overlap, dev_lateflush>>
+  /\ UNCHANGED <<xvars, yvars, cvars, rvars, wvars, faulted, pertimed, dev_fstuck>>
+  /\ LogV(p, "RUnclaim", TRUE)
 
 FBegin ==     \* the periodic goroutine sees ctx.Done() and starts its final report in a new goroutine
   /\ Scene = "bridge" /\ pc["fin"] = "idle" /\ ctxDone
@@ -538,6 +654,25 @@ FBegin ==     \* the periodic goroutine sees ctx.Done() and starts its final rep
   /\ liveG' = liveG \cup {"fin"}
   /\ UNCHANGED <<ctxDone, retd, called, closed, lock, ran, lvars, tvars, bconns, once, batch, sent, ctr, last, moved, stored, reported, rloc, rmu, dev_overlap, dev_lateflush>>
   /\ Log("fin", "FBegin", TRUE)
+
+\* The periodic goroutine waits for that report, but not for ever (5 s): with cloud control keeping the report waiting
+\* (path "slowcloud") it gives up and ends (PerTimeout).  The reporting goroutine signals its end (FDone): as coded it
+\* closes a channel and ends whether or not anybody is still waiting.  Design "finto" (hypothetical): it SENDS on an
+\* unbuffered channel - with the waiting goroutine gone it blocks for ever (deviation dev_fstuck).
+PerTimeout ==
+  /\ Scene = "bridge" /\ "slowcloud" \in Paths /\ "per" \in liveG /\ ~pertimed
+  /\ pc["fin"] \in {"rbegin", "get", "upd", "sto", "unclaim"}
+  /\ pertimed' = TRUE /\ liveG' = liveG \ {"per"}
+  /\ UNCHANGED <<pc, ctxDone, retd, called, closed, lock, ran, lvars, tvars, bvars, xvars, yvars, cvars, rvars, wvars, faulted, dev_unclaim, dev_fstuck>>
+  /\ LogV("per", "GiveUp", FALSE)
+
+FDone ==
+  /\ Scene = "bridge" /\ pc["fin"] = "fsend"
+  /\ IF FinTO /\ pertimed
+     THEN pc' = [pc EXCEPT !["fin"] = "stuck"] /\ dev_fstuck' = TRUE /\ liveG' = liveG
+     ELSE pc' = [pc EXCEPT !["fin"] = "gone"] /\ dev_fstuck' = dev_fstuck /\ liveG' = liveG \ {"fin"}
+  /\ UNCHANGED <<ctxDone, retd, called, closed, lock, ran, lvars, tvars, bvars, xvars, yvars, cvars, rvars, wvars, faulted, dev_unclaim, pertimed>>
+  /\ LogV("fin", "FDone", TRUE)
 
 PerExit ==    \* ... and ends when that report is done
   /\ Scene = "bridge" /\ "per" \in liveG /\ pc["fin"] = "gone"
@@ -565,7 +700,8 @@ CBorn(c) ==   \* the copier goroutine starts running: as written it reads b.targ
   /\ Scene = "bridge" /\ c \in Copiers /\ pc[c] = "born"
   /\ IF ~FixSnap /\ bconns = "closed"
      THEN /\ pc' = [pc EXCEPT ![c] = "panicked"] /\ panicked' = panicked \cup {c} /\ dev_nilfwd' = TRUE
-     ELSE /\ pc' = [pc EXCEPT ![c] = "read"] /\ UNCHANGED <<panicked, dev_nilfwd>>
+     ELSE /\ pc' = [pc EXCEPT ![c] = IF c = "cpA" /\ ctxDone THEN "ended" ELSE "read"]   \* the source copier tests the context before its first read
+          /\ UNCHANGED <<panicked, dev_nilfwd>>
   /\ UNCHANGED <<liveG, ctxDone, retd, called, closed, lock, ran, lvars, tvars, bvars, torn, dev_tornio>>
   /\ LogX(c, "Born", TRUE)
 
@@ -640,10 +776,40 @@ RCall(p) ==
      THEN /\ pc' = [pc EXCEPT ![p] = IF p = "hlp" THEN "send" ELSE "ret"]
           /\ retd' = (IF p = "hlp" THEN retd ELSE retd \cup {p})
           /\ UNCHANGED <<disposing, regs, todo>>
-     ELSE /\ disposing' = TRUE /\ regs' = {} /\ todo' = [todo EXCEPT ![p] = <<"r2", "r1">>]
+     ELSE /\ disposing' = TRUE /\ regs' = {}
+          /\ LET names == SelectSeq(Rev(order), LAMBDA n : n \in regs)      \* reverse registration order, names still registered
+             IN todo' = [todo EXCEPT ![p] = [i \in 1..Len(names) |-> objof[names[i]]]]
           /\ pc' = [pc EXCEPT ![p] = "disp"] /\ retd' = retd
+  /\ order' = (IF disposing \/ regs = {} THEN order ELSE <<>>)
+  /\ mustres' = (IF disposing \/ regs = {} THEN mustres ELSE mustres \cup {objof[n] : n \in regs})
   /\ UNCHANGED <<liveG, ctxDone, closed, lock, ran, lvars, tvars, bvars, xvars, yvars, cvars, dev_stuck>>
-  /\ LogZ(p, "Call", p = "hlp")
+  /\ UNCHANGED <<objof, dev_lazy, dev_lost, npc, ntimed, dev_nstuck>>
+  /\ LogW(p, "Call", p = "hlp")
+
+\* Registration history (path "reg"): the resource registered as r1 is unregistered and another one (object r1b) is
+\* registered under the same name.  As coded Unregister removes the name from the order list.  Design "lazyorder"
+\* (hypothetical): the name stays in the list - after the re-registration it is there twice and DisposeAll disposes the
+\* current object twice (deviation dev_lazy).
+RUnreg ==
+  /\ Scene = "resmgr" /\ "reg" \in Procs /\ pc["reg"] = "idle"
+  /\ IF "r1" \in regs
+     THEN regs' = regs \ {"r1"} /\ order' = (IF LazyOrder THEN order ELSE RemoveFirst(order, "r1"))
+     ELSE UNCHANGED <<regs, order>>
+  /\ pc' = [pc EXCEPT !["reg"] = "rereg"]
+  /\ UNCHANGED <<liveG, ctxDone, retd, called, closed, lock, ran, lvars, tvars, bvars, xvars, yvars, cvars, disposing, todo, dev_stuck>>
+  /\ UNCHANGED <<objof, mustres, dev_lazy, dev_lost, npc, ntimed, dev_nstuck>>
+  /\ LogW("reg", "Unreg", FALSE)
+
+RReg ==
+  /\ Scene = "resmgr" /\ "reg" \in Procs /\ pc["reg"] = "rereg"
+  /\ IF "r1" \notin regs
+     THEN /\ regs' = regs \cup {"r1"} /\ order' = Append(order, "r1") /\ objof' = [objof EXCEPT !["r1"] = "r1b"]
+          /\ dev_lazy' = (dev_lazy \/ \E i \in 1..Len(order) : order[i] = "r1")
+     ELSE UNCHANGED <<regs, order, objof, dev_lazy>>
+  /\ pc' = [pc EXCEPT !["reg"] = "ret"]
+  /\ UNCHANGED <<liveG, ctxDone, retd, called, closed, lock, ran, lvars, tvars, bvars, xvars, yvars, cvars, disposing, todo, dev_stuck>>
+  /\ UNCHANGED <<mustres, dev_lost, npc, ntimed, dev_nstuck>>
+  /\ LogW("reg", "Reg", FALSE)
 
 RDisp(p) ==   \* resource.Dispose() of the next resource
   /\ Scene = "resmgr" /\ pc[p] = "disp"
@@ -684,22 +850,36 @@ HSend ==      \* the helper delivers its result after the caller has gone
   /\ LogZ("hlp", "Send", TRUE)
 
 \* ==============================================================================================
-Next == \/ \E p \in Closers : LCall(p) \/ LLatch(p) \/ LLatchLoad(p) \/ LLatchWait(p) \/ LLatchStore(p) \/ LRun(p)
+Steps ==
+        \/ \E p \in Closers : LCall(p) \/ LLatch(p) \/ LLatchLoad(p) \/ LLatchWait(p) \/ LLatchStore(p) \/ LRun(p)
         \/ LAdd \/ LOpCall \/ LOpCheck \/ IoCall \/ IoNext \/ IoEnd
         \/ \E g \in liveG : GExit(g)
         \/ \E p \in Procs : TLoad(p) \/ TCas(p) \/ TUnreg(p) \/ TCb(p)
         \/ TEof \/ StCall \/ StSetCtx \/ StCas \/ StSpawn
         \/ \E p \in Procs : RCall(p) \/ RDisp(p)
-        \/ TwCall \/ TwRecv \/ TwTimeout \/ HSend \/ TgSet
+        \/ TwCall \/ TwRecv \/ TwTimeout \/ HSend \/ TgSet \/ RUnreg \/ RReg \/ NTimeout \/ NRelease
         \/ \E p \in Procs : XCall(p) \/ XCloseConn(p) \/ XLatch(p) \/ RBegin(p) \/ RGet(p) \/ RUpd(p) \/ RSto(p)
+        \/ \E p \in Procs : RGetFail(p) \/ RUpdFail(p) \/ RUnclaim(p)
+        \/ PerTimeout \/ FDone
         \/ FBegin \/ PerExit \/ StStart \/ StCtx \/ StWake \/ BCtx
         \/ \E c \in Copiers : CBorn(c) \/ CData(c) \/ CDataBig(c) \/ CCtx(c) \/ CEnd(c) \/ CFlush(c) \/ COnce(c)
+\* Generation only (Emit = TRUE; the exhaustive runs explore every order): steps that have no gate in the real code and
+\* cannot wait for anything are taken as soon as they are enabled, the way the real goroutines take them - schedules
+\* that delay them could not be forced on the code.  Design "claim": a report beginning (RBegin: the claim) and the
+\* periodic goroutine reacting to the cancelled context (FBegin).  Scene "resmgr": DisposeWithTimeout's helper goroutine
+\* entering DisposeAll.
+EagerClaim == Emit /\ ClaimOnly /\ Scene = "bridge"
+               /\ ((pc["fin"] = "idle" /\ ctxDone) \/ \E p \in Procs : pc[p] = "rbegin")
+EagerHlp   == Emit /\ Scene = "resmgr" /\ "hlp" \in Procs /\ pc["hlp"] = "idle"
+Next == IF EagerClaim THEN FBegin \/ \E p \in Procs : RBegin(p)
+        ELSE IF EagerHlp THEN RCall("hlp")
+        ELSE Steps
 Spec == Init /\ [][Next]_vars
 
 \* ---- properties (C16) -----------------------------------------------------------------------
 TypeOK == /\ \A h \in HandlerIds : ran[h] \in 0..8
           /\ cb \in 0..8 /\ unreg \in 0..8 /\ notif \in 0..8
-          /\ liveG \subseteq {"w", "m1", "m2", "copy", "per", "fin", "cpA", "cpB", "hlp"}
+          /\ liveG \subseteq {"w", "m1", "m2", "copy", "per", "fin", "cpA", "cpB", "hlp", "n"}
 
 \* (1) every clean-up action / close callback runs at most once, always
 AtMostOnce == /\ \A h \in HandlerIds : ran[h] <= 1
@@ -707,7 +887,7 @@ AtMostOnce == /\ \A h \in HandlerIds : ran[h] <= 1
 \* (2) ... and exactly once when a Close has returned (latch: handlers registered before any Close was called;
 \*     bridge: the clean-up handler).  Tunnel.Close returns early to a closer that finds Closing, so for the
 \*     tunnel the demand is made when every initiator has returned.
-Initiated == \E p \in Procs : pc[p] \notin {"idle", "none"} /\ p \notin {"add", "op", "io", "start", "tg"}
+Initiated == \E p \in Procs : pc[p] \notin {"idle", "none"} /\ p \notin {"add", "op", "io", "start", "tg", "reg"}
 AllRet == \A p \in Procs : \/ pc[p] \in {"ret", "gone", "stuck"}
                             \/ (p = "hlp" /\ pc[p] = "none" /\ pc["tw"] = "ret")
                             \/ (Scene = "bridge" /\ p = "fin" /\ ~ctxDone)
@@ -718,7 +898,7 @@ ExactlyOnce ==
   CASE Scene = "latch"  -> (retd # {}) => \A h \in must : ran[h] = 1
     [] Scene = "bridge" -> (retd # {}) => ran["cleanup"] = 1
     [] Scene = "tunnel" -> (AllRet /\ Initiated) => (cb = 1 /\ unreg = 1)
-    [] Scene = "resmgr" -> (AllRet /\ Initiated) => (ran["r1"] = 1 /\ ran["r2"] = 1)
+    [] Scene = "resmgr" -> (AllRet /\ Initiated) => \A o \in mustres : ran[o] = 1     \* every object a DisposeAll took over
 \* (2b) every connection the bridge was handed before the last Close call is closed exactly once, never twice
 ConnOnce == /\ \A c \in Conns : cclosed[c] <= 1
             /\ (Scene = "bridge" /\ AllRet) => \A c \in mustc : cclosed[c] = 1
@@ -731,15 +911,18 @@ ClosedError == (Scene = "latch" /\ opafter /\ opres # "none") => opres = "closed
 \* (6) nothing is left running: when every process has returned, every remaining goroutine is on its way out
 CanExit(g) == \/ g \in {"w", "m1", "m2"} /\ ctxDone
               \/ g = "per" /\ (pc["fin"] = "gone" \/ (pc["fin"] = "idle" /\ ctxDone))
-LeakFree == (AllRet /\ Initiated) => \A g \in liveG : CanExit(g)
+LeakFree == (AllRet /\ Initiated /\ npc # "sending") => \A g \in liveG : CanExit(g)     \* (pending I/O unblocked)
+\* (3b) ... and the statistics kept by cloud control end up with exactly the bytes moved (no update overwritten)
+StoredExact == (Scene = "bridge" /\ AllRet /\ closed) => stored = moved
 
 \* What is checked: the property, or - in a configuration of the code as written - a listed deviation.
-InvAtMostOnce  == AtMostOnce \/ (~FixCas /\ fell) \/ (SplitLatch /\ dev_split)
-InvExactlyOnce == ExactlyOnce \/ (~FixCas /\ fell) \/ (SplitLatch /\ dev_split)
-InvLeakFree    == LeakFree \/ (CasFirst /\ dev_ctxlate) \/ (Unbuf /\ dev_stuck)
+InvAtMostOnce  == AtMostOnce \/ (~FixCas /\ fell) \/ (SplitLatch /\ dev_split) \/ (LazyOrder /\ dev_lazy)
+InvExactlyOnce == ExactlyOnce \/ (~FixCas /\ fell) \/ (SplitLatch /\ dev_split) \/ (LazyOrder /\ dev_lazy)
+InvLeakFree    == LeakFree \/ (CasFirst /\ dev_ctxlate) \/ (Unbuf /\ dev_stuck) \/ (NotifyTO /\ dev_nstuck) \/ (FinTO /\ dev_fstuck)
+InvStored      == StoredExact \/ (~FixReport /\ dev_overlap) \/ (~FixFlush /\ dev_lateflush) \/ (ClaimOnly /\ (dev_lost \/ dev_unclaim))
 InvConnOnce    == ConnOnce \/ (SnapClose /\ dev_snap)
 InvNoOver      == NoOverReport \/ (~FixReport /\ dev_overlap)
 InvNoPanic     == \A p \in panicked : (p = "io" /\ dev_tornio) \/ (p \in Copiers /\ ~FixSnap /\ dev_nilfwd)
 NoPanic        == panicked = {}
-InvTraffic     == TrafficExact \/ (~FixReport /\ dev_overlap) \/ (~FixFlush /\ dev_lateflush)
+InvTraffic     == TrafficExact \/ (~FixReport /\ dev_overlap) \/ (~FixFlush /\ dev_lateflush) \/ (ClaimOnly /\ dev_unclaim)
 =============================================================================
